@@ -1719,6 +1719,31 @@ func runC03() {
 		}
 	}
 
+	// ---- accepted programs whose operators are OVERLOADED (expr.Operator): what Compile accepts does not fail for a type
+	//      reason at run time either - wherever the overloaded occurrence stands, also as the operand the short conditional
+	//      `a ?: b` uses twice
+	{
+		e := c17BaseEnv()
+		ops := []expr.Option{expr.Env(e), expr.Operator("<", "Less"), expr.Operator("==", "EqMM", "EqMD"), expr.Operator("+", "Add", "AddInt")}
+		for _, src := range []string{"(A < B) ?: Ok", "(B < A) ?: Ok", "(A == B) ?: No", "(A == D) ?: No", "(A + B == C) ?: Ok", "Ok ?: (A < B)", "(A < B) ? (A < B) : Ok",
+			"[(A < B) ?: Ok, (B < A) ?: No]", "map(Ms, {(# < A) ?: Ok})", "{\"k\": (A < B) ?: Ok}", "((A + 1) < B) ?: Ok", "not (A < B) ?: Ok", "(A < B ?: Ok) == true"} {
+			rep.Evaluations++
+			rep.hist("accepted program with overloaded operators")
+			prog, cerr := c03SafeCompile(src, ops)
+			if cerr != nil {
+				rep.hist("overloaded-operator program rejected")
+				continue
+			}
+			r := runProgram(prog, e)
+			if r.err != nil {
+				if cls, _, _ := errInfo(r.err); c03TypeClasses[cls] {
+					fail(Failure{Key: "C03-type-failure-at-run-time", What: "an accepted program with overloaded operators fails for a type reason at run time",
+						Input: c03Input{Src: src, World: "C17Env + Operator(<, Less) Operator(==, EqMM, EqMD) Operator(+, Add, AddInt)"}, Want: "no failure of a type class", Got: firstLineOf(r.err.Error())})
+				}
+			}
+		}
+	}
+
 	// ---- correspondence over the other configurations
 	extra := []string{"a", "a + 1", "b + a", "zz", "zz + 1", "zz?.x", "f(1)", "f(s)", "g(1)", "in.X", "in.Zz", "s + a", "a.b", "len(s)", "I + 1", "I + S", "S + S2", "Zz", "Zz(1)", "Zz.a", "St.Zz",
 		"Add(1, 2)", "I + I", "S + S", "I + F64", "I < 2", "St < 2", "1 + 2 + 3", "nil", "[1, 2]", "{a: 1}", "#", "all(AI, {# > 0})", "map(AI, {nil})", "map(AI, {#})", "filter(AA, {true})", "filter(Any, {true})",
